@@ -58,3 +58,13 @@ NATIVE['n_c14_felt_mutants'] = dict(
     functions=[('crates/cairo-lang-starknet-classes/src/contract_class.rs', 'impl ContractClass', 'extract_sierra_program'),
                ('crates/cairo-lang-starknet-classes/src/felt252_serde.rs', None, 'sierra_from_felt252s')],
 )
+NATIVE['n_libfunc_sweep'] = dict(
+    crate='cairo-lang-sierra-to-casm',
+    host='crates/cairo-lang-sierra-to-casm/src/compiler.rs',
+    harness='native/cairo-lang-sierra-to-casm/n_libfunc_sweep.rs',
+    props={'C14', 'C04', 'C17'},
+    bound='every generic libfunc id x generic-argument lists of length 0..=2 over the boundary universe; each accepted declaration compiled as a '
+          'one-invocation program; per-branch declared ap change / cost vs every path of the emitted instructions',
+    functions=[('crates/cairo-lang-sierra-to-casm/src/compiler.rs', None, 'compile'),
+               ('crates/cairo-lang-sierra-ap-change/src/core_libfunc_ap_change.rs', None, 'core_libfunc_ap_change')],
+)
